@@ -279,6 +279,7 @@ var c13Events = []struct {
 	{"post A no start, end -10s (resolved)", func(y *c13Sys) bool { y.post("A", nil, dp(-10*time.Second)); return true }},
 	{"post A start -30s, no end", func(y *c13Sys) bool { y.post("A", dp(-30*time.Second), nil); return true }},
 	{"post A start -30s, end +5m", func(y *c13Sys) bool { y.post("A", dp(-30*time.Second), dp(5*time.Minute)); return true }},
+	{"post A start -30s, end +20s (an explicit end sooner than a re-send without end would give)", func(y *c13Sys) bool { y.post("A", dp(-30*time.Second), dp(20*time.Second)); return true }},
 	{"post A start -30s, end now (resolve)", func(y *c13Sys) bool { y.post("A", dp(-30*time.Second), dp(0)); return true }},
 	{"post B heartbeat", func(y *c13Sys) bool { y.post("B", nil, nil); return true }},
 	{"post B heartbeat with annotations {summary: 's', description: '' (a template that rendered to nothing), note: ' '}", func(y *c13Sys) bool {
